@@ -13,7 +13,7 @@ pub fn spec() -> PropSpec {
     PropSpec {
         id: "C03",
         level: "exploration",
-        rule: "(a) frames of the nine formats built by an independent CRC-24 (AP = CRC xor address / AA field) for enumerated and generated addresses and generated payloads: public get_icao and the row key created by the reader must equal the builder's address, address 0 must leave the table unchanged; (b) generated interleaved histories of 2-4 aircraft over the whole frame alphabet, one reader run per frame on a persistent table, full snapshot (all fields incl. time stamps) before/after. Non-trivial: (a) every (format,address,payload) tuple, distinct by enumeration or hash; (b) steps executed while another aircraft's row already has non-default content, distinct by (frame, table-before) hash",
+        rule: "(a) frames of the nine formats built by an independent CRC-24 (AP = CRC xor address / AA field) for enumerated and generated addresses and generated payloads: public get_icao and the row key created by the reader must equal the builder's address, address 0 must leave the table unchanged; (b) generated interleaved histories of 2-4 aircraft over the whole frame alphabet, one reader run per frame on a persistent table, full snapshot (all fields incl. time stamps) before/after; plus the projection relation: after the whole history in one reader run, each aircraft's row equals the row its own frames alone produce. Non-trivial: (a) every (format,address,payload) tuple, distinct by enumeration or hash; (b) steps executed while another aircraft's row already has non-default content, distinct by (frame, table-before) hash",
         assumptions: &["reference CRC-24 = bit-serial division by 0x1FFF409 (checked against published intact frames)", "the HashMap cannot hold two rows under one key, so 'two rows for one address' is checked as row.icao == key for every row"],
         workers: 16,
         also_nochk: false,
@@ -94,6 +94,9 @@ fn check_history(c: &mut Ctx, opts: &Opts, steps: &[Step], counting: bool) -> Re
     let t = run::new_table();
     for (i, s) in steps.iter().enumerate() {
         let addr = gen::POOL[s.ac];
+        if !bits::NINE.contains(&s.frame.df()) {
+            continue; // no attribution rule is stated for other formats
+        }
         run::shift_time(&t, s.dt);
         let before = run::snapshot(&t);
         run::run_lines(opts, &t, &[s.frame.hex()]).map_err(|e| format!("step {}: reader failed on {}: {:?}", i, s.frame.hex(), e))?;
@@ -129,6 +132,38 @@ fn check_history(c: &mut Ctx, opts: &Opts, steps: &[Step], counting: bool) -> Re
                 c.class(&format!("step_df{}", s.frame.df()));
             } else {
                 c.class("step_alone");
+            }
+        }
+    }
+    Ok(())
+}
+
+/// projection: after the whole interleaved history in ONE reader run, the row of each aircraft equals the row
+/// produced by that aircraft's own frames alone (also one run) - nothing leaks between frames of different aircraft
+fn check_projection(opts: &Opts, steps: &[Step]) -> Result<(), String> {
+    let steps: Vec<&Step> = steps.iter().filter(|s| bits::NINE.contains(&s.frame.df())).collect();
+    let all: Vec<String> = steps.iter().map(|s| s.frame.hex()).collect();
+    let t = run::new_table();
+    run::run_lines(opts, &t, &all).map_err(|e| format!("reader failed on the interleaved history: {:?}", e))?;
+    let full = run::no_clock(&run::snapshot(&t));
+    let mut acs: Vec<usize> = steps.iter().map(|s| s.ac).collect();
+    acs.sort();
+    acs.dedup();
+    for ac in acs {
+        let addr = gen::POOL[ac];
+        let own: Vec<String> = steps.iter().filter(|s| s.ac == ac).map(|s| s.frame.hex()).collect();
+        let t1 = run::new_table();
+        run::run_lines(opts, &t1, &own).map_err(|e| format!("reader failed: {:?}", e))?;
+        let alone = run::no_clock(&run::snapshot(&t1));
+        if alone.len() != 1 || !alone.contains_key(&addr) {
+            return Err(format!("frames of {:06X} alone produce rows {:?}", addr, alone.keys().map(|k| format!("{:06X}", k)).collect::<Vec<_>>()));
+        }
+        match full.get(&addr) {
+            None => return Err(format!("aircraft {:06X} has no row after the interleaved history", addr)),
+            Some(r) => {
+                if *r != alone[&addr] {
+                    return Err(format!("the row of {:06X} after the interleaved history differs from the row its own frames produce (frames of other aircraft leaked into it): {}", addr, alone[&addr].diff(r).join("; ")));
+                }
             }
         }
     }
@@ -227,10 +262,10 @@ fn run(c: &mut Ctx) {
     }
 
     // (b) interleaved histories
-    let cases = c.tier.pick(1500, 30_000);
+    let cases = c.tier.pick(6000, 100_000);
     let strat = (gen::opts_ur(), (2usize..=4).prop_flat_map(|n| alphabet::history(n, 5..40, 3)));
     let r = c.proptest(cases, strat, |c, (opts, steps), counting| {
-        let r = check_history(c, opts, steps, counting);
+        let r = check_history(c, opts, steps, counting).and_then(|_| check_projection(opts, steps));
         if counting && r.is_ok() && c.want_sample() && steps.len() > 8 {
             c.sample(json!({"history": steps.iter().map(|s| format!("{:06X}:{}", gen::POOL[s.ac], s.frame.hex())).collect::<Vec<_>>(), "opts": opts.label()}));
         }
@@ -256,7 +291,7 @@ fn replay(c: &mut Ctx, case: &Value) {
         Some("history") => {
             let opts: Opts = serde_json::from_value(case["opts"].clone()).unwrap_or_default();
             let steps: Vec<Step> = serde_json::from_value(case["steps"].clone()).unwrap_or_default();
-            if let Err(m) = check_history(c, &opts, &steps, false) {
+            if let Err(m) = check_history(c, &opts, &steps, false).and_then(|_| check_projection(&opts, &steps)) {
                 c.fail(m, "c03:history", case.clone());
             }
         }
